@@ -151,7 +151,7 @@ def apply_model(lst, op):
     if name in ("extend_self", "extend_own_items"):
         lst.extend(list(lst))
         return None
-    if name == "update_self":
+    if name in ("update_self", "update_own_items"):
         for k, v in list(lst):
             model_set(lst, k, v)
         return None
@@ -257,6 +257,8 @@ def apply_real(d, op, cls):
         return _bounded_cpu(lambda: d.extend(d.items()))
     if name == "update_self":
         return d.update(d)
+    if name == "update_own_items":
+        return _bounded_cpu(lambda: d.update(d.items()))
     if name == "extend_as":
         return d.extend(carry(op[1], op[2], cls))
     if name == "update_as":
@@ -594,7 +596,7 @@ def ex_ops():
             ("update_as", "keysobj", (("b", 2), ("a", 1))),
             ("insert_as", "lol", 1, (("b", 2), ("b", 1))),
             ("rebuild", "gen"), ("rebuild", "omd"), ("rebuild", "itemsobj"),
-            ("copy",), ("extend_self",), ("update_self",), ("extend_own_items",),
+            ("copy",), ("extend_self",), ("update_self",), ("extend_own_items",), ("update_own_items",),
             ("fork_copy",), ("fork_ctor",), ("swap",)]
     return ops
 
@@ -670,7 +672,7 @@ def op_strategy():
         st.tuples(st.just("rebuild"),
                   st.sampled_from([c for c in CARRIERS if c not in UNIQUE_ONLY])),
         st.tuples(st.just("copy")),
-        st.tuples(st.sampled_from(["extend_self", "update_self", "extend_own_items"])),
+        st.tuples(st.sampled_from(["extend_self", "update_self", "extend_own_items", "update_own_items"])),
         st.tuples(st.sampled_from(["fork_copy", "fork_ctor", "fork_extend", "swap"])),
     )
 
